@@ -4,7 +4,7 @@ import ast
 import inspect
 import textwrap
 
-from tables.util import llist
+from tables.util import llist, lstr
 
 NAME = "C19"
 
@@ -189,6 +189,78 @@ def _import_info_shape(fn):
     return out
 
 
+def _gate_diagnostics(fn):
+    """The `error.<level>(...)` calls of a function in source order, each with the test / handler that
+    encloses it and its explicit badness argument: `<context>:<level>:<badness|default>`."""
+    out = []
+
+    def visit(node, ctx):
+        if isinstance(node, ast.If):
+            t = "if " + ast.unparse(node.test)
+            visit(node.test, ctx)
+            for c in node.body:
+                visit(c, t)
+            for c in node.orelse:
+                visit(c, "else of " + t)
+            return
+        if isinstance(node, ast.Try):
+            for c in node.body:
+                visit(c, "try")
+            for h in node.handlers:
+                hc = "except " + (ast.unparse(h.type) if h.type is not None else "BaseException")
+                for c in h.body:
+                    visit(c, hc)
+            for c in node.orelse + node.finalbody:
+                visit(c, ctx)
+            return
+        if isinstance(node, ast.Call) and isinstance(node.func, ast.Attribute) and isinstance(node.func.value, ast.Name) \
+                and node.func.value.id == "error":
+            bad = "default"
+            for k in node.keywords:
+                if k.arg == "badness":
+                    bad = ast.unparse(k.value)
+            if len(node.args) >= 3:
+                bad = ast.unparse(node.args[2])
+            out.append(f"{ctx}:{node.func.attr}:{bad}")
+        for c in ast.iter_child_nodes(node):
+            visit(c, ctx)
+
+    for st in fn.body:
+        visit(st, "top")
+    return out
+
+
+def _main_badness_shape(fn):
+    """Source order of: the gate call, the analysis call, the badness check (with what it does) and the
+    cache write in main()."""
+    ev = []
+    for node in ast.walk(fn):
+        pass
+    def visit(node):
+        if isinstance(node, ast.If) and "is_within_badness_threshold" in ast.unparse(node.test):
+            acts = [n.func.attr for b in node.body for n in ast.walk(b)
+                    if isinstance(n, ast.Call) and isinstance(n.func, ast.Attribute) and isinstance(n.func.value, ast.Name)
+                    and n.func.value.id == "error"]
+            ev.append("if " + ast.unparse(node.test) + ":" + ",".join(acts))
+            for c in node.orelse:
+                visit(c)
+            return
+        if isinstance(node, ast.Call):
+            f = node.func
+            name = f.attr if isinstance(f, ast.Attribute) else (f.id if isinstance(f, ast.Name) else "")
+            if name in ("target_cache_file_is_up_to_date", "parse_and_analyse_file", "write_cache_file"):
+                ev.append("call:" + name)
+        for c in ast.iter_child_nodes(node):
+            visit(c)
+    for st in fn.body:
+        visit(st)
+    return ev
+
+
+def lpairs(xs):
+    return "[" + ", ".join("(" + lstr(a) + ", " + str(int(b)) + ")" for a, b in xs) + "]"
+
+
 def tables():
     import attrs
 
@@ -220,7 +292,25 @@ def tables():
         f"def builtinsLocation : String := {llist([PYTHON_BUILTINS_LOCATION])[1:-1]}",
         f"def permanentBlacklist : List String := {llist(sorted(ct.Config.MODULE_BLACKLIST_PATTERNS))}",
     ]
-    return deps + [
+    import importlib
+    import sys as _sys
+
+    importlib.import_module("rattr.error.error")
+    ree = _sys.modules["rattr.error.error"]
+
+    def _default_badness(name):
+        return inspect.signature(getattr(ree, name)).parameters["badness"].default
+
+    run_tables = [
+        f"def gateDiagnostics : List String := {llist(_gate_diagnostics(gate))}",
+        f"def errorDefaultBadness : List (String × Nat) := {lpairs([(n, _default_badness(n)) for n in ('info', 'warning', 'error', 'fatal')])}",
+        f"def withinShape : List String := {llist(_stmts(_fn_ast(ct.Config.is_within_badness_threshold.fget)))}",
+        f"def badnessShape : List String := {llist([_property_src(ct.State, 'badness')])}",
+        f"def incrementShape : List String := {llist(_stmts(_fn_ast(ct.Config.increment_badness)))}",
+        f"def strictErrorShape : List String := {llist([s_ for s_ in _stmts(_fn_ast(ree.error)) if 'is_strict' in s_])}",
+        f"def mainBadnessShape : List String := {llist(_main_badness_shape(_fn_ast(rmain.main)))}",
+    ]
+    return deps + run_tables + [
         f"def hashedArguments : List String := {llist(fields)}",
         f"def cacheFields : List String := {llist([f.name for f in attrs.fields(CacheableResults)])}",
         f"def importInfoFields : List String := {llist([f.name for f in attrs.fields(CacheableImportInfo)])}",
